@@ -37,6 +37,24 @@ def fresh_world(h):
         h.I.ctx.class_attrs[(NetworkXGraphStorageDisjoint, 'storage_instance')] = None
 
 
+def iface(h, element, name):
+    """the interface of `element` with this name (iteration order of interface lists is unspecified: they come out of sets)"""
+    for i in pylist(h.getattr(element, 'interface_list')):
+        if str(h.getattr(i, 'name')) == name:
+            return i
+    raise KeyError(name)
+
+
+def pylist(x):
+    """python list of the elements of a list / tuple / keys view in either mode"""
+    from pyvc.values import PSet, DictView
+    if isinstance(x, (PList, PSet)):
+        return list(x.items)
+    if isinstance(x, DictView):
+        return [k for k in x.d.e] if x.kind == 'keys' else [v for (_, v) in x.d.e.values()]
+    return list(x)
+
+
 def CMT(name):
     return getattr(cc.ComponentModelType, name)
 
